@@ -264,3 +264,6 @@ def rules(ctx):
     cost_delta_form(ctx, s_sites)
     formation_update_order(ctx)
     cycle_update_rules(ctx)
+    from . import order
+    order.pair_order(ctx, "R3")
+    order.depot_sides(ctx, "R6")
